@@ -34,6 +34,8 @@ func ruleC15(prog *Program, rep *Report) {
 	ruleTightAppendTwins(prog, rep, "oj", "sen")
 	ruleFullRange(prog, rep, 6, "oj", "sen", "alt", "pretty")
 	ruleNumFamily(prog, rep, 4, "oj", "sen", "alt", "pretty", "")
+	ruleFlagConsist(prog, rep, 5, "oj", "sen")
+	ruleCallOrder(prog, rep, 2, "alt")
 	ruleSelfRec(prog, rep, 6, "oj", "sen", "alt") // the field-plan builders for the three key cases are copies: each recurses into itself for embedded structs
 	rulePkgTwins(prog, rep, "oj", "sen", 40)      // sen's writer, field plans and accessors are copies of oj's
 }
